@@ -103,7 +103,51 @@ func encryptLikeCLI(clear []byte, c *cryptgen.Case) ([]byte, *harness.Fail) {
 	return out.Bytes(), nil
 }
 
+// inMemorySamples reads the samples of the decrypted segments straight from the structures DecryptSegment left in
+// memory (a player that decrypts and then reads, without an encode/decode in between) and compares their bytes with
+// want (the clear sample data in order; nil = not compared).
+func inMemorySamples(segs []*mp4.MediaSegment, di mp4.DecryptInfo, want [][]byte, who string) *harness.Fail {
+	if want == nil {
+		return nil
+	}
+	k := 0
+	for si, seg := range segs {
+		for fi, fr := range seg.Fragments {
+			if fr.Moof == nil || fr.Moof.Traf == nil || fr.Moof.Traf.Tfhd == nil {
+				continue
+			}
+			var trex *mp4.TrexBox
+			for _, ti := range di.TrackInfos {
+				if ti.TrackID == fr.Moof.Traf.Tfhd.TrackID {
+					trex = ti.Trex
+				}
+			}
+			fss, err := fr.GetFullSamples(trex)
+			if err != nil {
+				return harness.Failf("C06|"+who+"|samples of the decrypted fragment cannot be read in memory", "segment %d fragment %d: %v", si, fi, err)
+			}
+			for _, fs := range fss {
+				if k >= len(want) {
+					return harness.Failf("C06|"+who+"|more samples in memory after decryption than in the clear input", "segment %d fragment %d", si, fi)
+				}
+				if !bytes.Equal(fs.Data, want[k]) {
+					return harness.Failf("C06|"+who+"|sample read in memory after decryption differs from the clear sample", "sample %d (segment %d fragment %d): %s, clear %s", k+1, si, fi, harness.HexTrunc(fs.Data, 24), harness.HexTrunc(want[k], 24))
+				}
+				k++
+			}
+		}
+	}
+	if k != len(want) {
+		return harness.Failf("C06|"+who+"|fewer samples in memory after decryption than in the clear input", "%d of %d", k, len(want))
+	}
+	return nil
+}
+
 func decryptLikeCLI(enc []byte, key []byte) ([]byte, *harness.Fail) {
+	return decryptLikeCLIWant(enc, key, nil)
+}
+
+func decryptLikeCLIWant(enc []byte, key []byte, want [][]byte) ([]byte, *harness.Fail) {
 	inMp4, err := mp4.DecodeFile(bytes.NewReader(enc))
 	if err != nil {
 		return nil, harness.Failf("C06|DecodeFile(encrypted)|error", "%v", err)
@@ -126,6 +170,9 @@ func decryptLikeCLI(enc []byte, key []byte) ([]byte, *harness.Fail) {
 		if err := seg.Encode(&out); err != nil {
 			return nil, harness.Failf("C06|MediaSegment.Encode(decrypted)|error", "%v", err)
 		}
+	}
+	if f := inMemorySamples(inMp4.Segments, di, want, "DecryptSegment"); f != nil {
+		return nil, f
 	}
 	return out.Bytes(), nil
 }
@@ -365,7 +412,7 @@ func decryptInitAlone(encInit []byte) ([]byte, *harness.Fail) {
 // roundTripInMemory encrypts and decrypts the SAME decoded objects without writing and re-reading them in between
 // (a packager that protects and a test player that unprotects in one process): InitProtect, EncryptFragment,
 // DecryptInit, DecryptSegment, then one Encode.
-func roundTripInMemory(clear []byte, c *cryptgen.Case) ([]byte, *harness.Fail) {
+func roundTripInMemory(clear []byte, c *cryptgen.Case, want [][]byte) ([]byte, *harness.Fail) {
 	f, err := mp4.DecodeFile(bytes.NewReader(clear))
 	if err != nil || f.Init == nil {
 		return nil, harness.Failf("C06|DecodeFile(clear input)|error", "%v", err)
@@ -393,6 +440,9 @@ func roundTripInMemory(clear []byte, c *cryptgen.Case) ([]byte, *harness.Fail) {
 		if err := mp4.DecryptSegment(seg, di, c.Key); err != nil {
 			return nil, harness.Failf("C06|DecryptSegment(in memory)|error", "%v", err)
 		}
+	}
+	if fail := inMemorySamples(f.Segments, di, want, "DecryptSegment(in memory)"); fail != nil {
+		return nil, fail
 	}
 	var out bytes.Buffer
 	if err := f.Encode(&out); err != nil {
@@ -448,7 +498,7 @@ func checkRoundTrip1(rc rtCase) *harness.Fail {
 		return judgeRoundTrip(&c, b, append(outInit, outMedia...))
 	}
 	if rc.Mode == "inmem" {
-		out, f := roundTripInMemory(b.File, &c)
+		out, f := roundTripInMemory(b.File, &c, b.Data)
 		if f != nil {
 			return f
 		}
@@ -463,7 +513,7 @@ func checkRoundTrip1(rc rtCase) *harness.Fail {
 	if _, err := fragbuild.Read(enc); err != nil {
 		return harness.Failf("C06|encrypted intermediate|data offsets do not resolve to the sample data", "%v", err)
 	}
-	out, f := decryptLikeCLI(enc, c.Key)
+	out, f := decryptLikeCLIWant(enc, c.Key, b.Data)
 	if f != nil {
 		return f
 	}
